@@ -391,7 +391,8 @@ class Ctx:
             print("KNOWN-FINDING: property=%s %s [%s]" % (self.pid, what, kid))
         for sig, what, path, no_input in self.violations:
             sys.stderr.write("violation: %s -- %s\n" % (sig, what))
-        for sig, what, path, no_input in self.violations[:10]:
+        # concrete failing inputs first, then broken obligations / correspondences without one
+        for sig, what, path, no_input in sorted(self.violations, key=lambda v: v[3])[:10]:
             print("VIOLATION property=%s replay=%s%s" % (self.pid, path, " no-failing-input-found" if no_input else ""))
         sys.stdout.flush()
         return 1 if self.violations else 0
